@@ -141,3 +141,12 @@ func VH_C02_new_session_never_takes_over_a_live_sessions_identifier() {
 	verifAssert(hs.sessionID != live.sessionID, "C02: the new handshake ends up with an identifier of its own")
 	verifAssert(c02Draws >= 2, "C02: a colliding identifier is drawn again")
 }
+
+//verif:prop C10
+//verif:replay none
+//verif:stub crypto/rand.Read = hsRandRead
+//verif:bounds as VH_C03_handshake_timeout_never_removes_an_established_session ("leaves established sessions working")
+//verif:cover fired
+func VH_C10_replayed_handshake_datagram_never_costs_an_established_session() {
+	VH_C03_handshake_timeout_never_removes_an_established_session()
+}
